@@ -1,8 +1,8 @@
 SPECIFICATION MCSpec
 CONSTANTS
   Procs = {"p1", "p2"}
-  Probes = {"q1", "q2"}
-  Datasets = {"d1", "d2"}
+  Probes = {"q1"}
+  Datasets = {"d1"}
   NRetries = 1
   ProbeRetries = 3
   MaxLen = 2
